@@ -35,6 +35,11 @@ def probes_for(coords, bounded, rng, n_idx, dense):
         ps += [coords[0] - span * 0.37, coords[0] - 1e-9, prv(coords[0]), coords[-1] + span * 0.21, coords[-1] + 1e-9]
     else:
         ps += [0.0, 1.0, -1.0]
+    # whole-number / grid positions outside the axis (the kernels special-case "below the first coordinate")
+    if n >= 2:
+        step = coords[1] - coords[0]
+        ps += [coords[0] - k * step for k in (1, 2, 3)] + [coords[-1] + k * step for k in (1, 2)]
+    ps += [-1.0, -2.0, -3.0, -0.5, -0.0, 0.0, float(n), float(n + 1), 1e9]
     if dense:
         ps += [rng.uniform(coords[0], coords[-1]) if n else rng.uniform(-2, 2) for _ in range(dense)]
     return ps
